@@ -311,6 +311,99 @@ Section Proofs.
   Proof.
     intros H1 H2 e. rewrite (run_crates_spec _ _ _ H1 e), (closure_spec _ _ _ _ H2 e). reflexivity.
   Qed.
+  (* ---- termination: fuel above |nodes|^2 is always enough *)
+  Definition nodes_of_rel (r : rel) : list A := map fst r ++ map snd r.
+  Definition universe (F : facts) : list A := f_root F ++ f_leaf F ++ nodes_of_rel (all_rels F).
+
+  Lemma NoDup_snoc (E : rel) n : NoDup E -> ~ In n E -> NoDup (E ++ [n]).
+  Proof.
+    induction 1 as [|x l Hx Hl IH]; cbn; intros Hn.
+    - constructor; [intros [] | constructor].
+    - constructor.
+      + rewrite in_app_iff. intros [H1|[H1|[]]]; [contradiction | subst; apply Hn; left; reflexivity].
+      + apply IH. intros H1. apply Hn. right. exact H1.
+  Qed.
+
+  Lemma add_new_NoDup new : forall E, NoDup E -> NoDup (add_new eqb E new).
+  Proof.
+    unfold add_new. induction new as [|n new IH]; intros E HE; cbn [fold_left]; [exact HE|].
+    destruct (mem_edge eqb n E) eqn:Hm; apply IH; [exact HE|].
+    apply NoDup_snoc; [exact HE|]. intros Hin. apply mem_edge_In in Hin. congruence.
+  Qed.
+
+  Lemma in_nodes_fst (r : rel) x c : In (x, c) r -> In x (nodes_of_rel r) /\ In c (nodes_of_rel r).
+  Proof.
+    intros H. unfold nodes_of_rel. split; apply in_or_app; [left | right]; apply in_map_iff; exists (x, c); auto.
+  Qed.
+
+  Lemma init_incl F V : incl (universe F) V -> incl (init eqb F) (list_prod V V).
+  Proof.
+    intros HV e He. apply init_In in He as [r [Hr H]].
+    assert (Hrv : In r V) by (apply HV; unfold universe; apply in_or_app; left; exact Hr).
+    destruct H as [[-> _] | [c [-> Hc]]]; apply in_prod; try exact Hrv.
+    apply HV. unfold universe. apply in_or_app. right. apply in_or_app. right.
+    destruct Hc as [Hc|Hc]; eapply in_nodes_fst; unfold all_rels; apply in_or_app; [left; exact Hc | right; apply in_or_app; left; exact Hc].
+  Qed.
+
+  Lemma derive1_incl F E V : incl (universe F) V -> incl E (list_prod V V) -> incl (derive1 eqb F E) (list_prod V V).
+  Proof.
+    intros HV HE e He. apply derive1_In in He as [a [x [Hin H]]].
+    assert (Hx : In x V) by (apply HE in Hin; apply in_prod_iff in Hin; tauto).
+    destruct H as [[_ ->] | [c [Hc ->]]]; apply in_prod; try exact Hx.
+    apply HV. unfold universe. apply in_or_app. right. apply in_or_app. right. eapply in_nodes_fst. exact Hc.
+  Qed.
+
+  Lemma add_new_incl (E new U : rel) : incl E U -> incl new U -> incl (add_new eqb E new) U.
+  Proof. intros H1 H2 e He. apply add_new_In in He as [He|He]; auto. Qed.
+
+  Lemma add_new_length E new : length E <= length (add_new eqb E new).
+  Proof. destruct (add_new_shape new E) as [l [Hl _]]. rewrite Hl, app_length. lia. Qed.
+
+  Lemma iterate_terminates F V : incl (universe F) V ->
+    forall fuel E, NoDup E -> incl E (list_prod V V) -> length (list_prod V V) - length E < fuel ->
+    exists R, iterate eqb fuel F E = Some R /\ NoDup R /\ incl R (list_prod V V).
+  Proof.
+    intros HV. induction fuel as [|n IH]; intros E Hnd Hinc Hlt; [lia|]. cbn [iterate].
+    destruct (Nat.eqb (length (add_new eqb E (derive1 eqb F E))) (length E)) eqn:Hlen.
+    - exists E. auto.
+    - apply Nat.eqb_neq in Hlen. pose proof (add_new_length E (derive1 eqb F E)) as Hge.
+      assert (Hnd' : NoDup (add_new eqb E (derive1 eqb F E))) by (apply add_new_NoDup; exact Hnd).
+      assert (Hinc' : incl (add_new eqb E (derive1 eqb F E)) (list_prod V V))
+        by (apply add_new_incl; [exact Hinc | apply derive1_incl; assumption]).
+      pose proof (NoDup_incl_length Hnd' Hinc') as Hle.
+      apply IH; [exact Hnd' | exact Hinc' | lia].
+  Qed.
+
+  (* one Filter::run always terminates (with the least fixpoint, by closure_spec) *)
+  Theorem closure_terminates F E0 V fuel :
+    incl (universe F) V -> NoDup E0 -> incl E0 (list_prod V V) -> length (list_prod V V) < fuel ->
+    exists R, closure eqb fuel F E0 = Some R /\ NoDup R /\ incl R (list_prod V V).
+  Proof.
+    intros HV Hnd Hinc Hlt. unfold closure. apply (iterate_terminates F V HV).
+    - apply add_new_NoDup. exact Hnd.
+    - apply add_new_incl; [exact Hinc | apply init_incl; exact HV].
+    - lia.
+  Qed.
+
+  Lemma universe_union F G x : In x (universe (union F G)) <-> In x (universe F) \/ In x (universe G).
+  Proof.
+    unfold universe, all_rels, nodes_of_rel. cbn [union f_root f_leaf f_field f_variant f_type].
+    rewrite !map_app, !in_app_iff. tauto.
+  Qed.
+
+  (* and so does the crate-by-crate loop *)
+  Theorem run_crates_terminates V fuel : length (list_prod V V) < fuel ->
+    forall cs acc E, incl (universe acc) V -> (forall c, In c cs -> incl (universe c) V) ->
+    NoDup E -> incl E (list_prod V V) ->
+    exists R, visit eqb fuel acc E cs = Some R.
+  Proof.
+    intros Hlt. induction cs as [|c rest IH]; intros acc E Hacc Hcs Hnd Hinc; cbn [visit]; [eexists; reflexivity|].
+    assert (HU : incl (universe (union acc c)) V).
+    { intros x Hx. apply universe_union in Hx as [Hx|Hx]; [apply Hacc | apply (Hcs c (or_introl eq_refl))]; exact Hx. }
+    destruct (closure_terminates (union acc c) E V fuel HU Hnd Hinc Hlt) as [R [HR [HndR HincR]]].
+    rewrite HR. apply IH; try assumption. intros d Hd. apply Hcs. right. exact Hd.
+  Qed.
+
   Lemma same_edges_sound (a b : rel) : same_edges eqb a b = true -> same_set a b.
   Proof.
     unfold same_edges, subset_edges. intros H. apply andb_prop in H as [H1 H2]. rewrite forallb_forall in H1, H2.
